@@ -66,6 +66,8 @@ package jd
 //@   trusted
 //@ contract renderYaml
 //@   trusted
+//@ contract yamlOrdered
+//@   trusted
 //@ contract JsonNode.Json
 //@   requires validNode(self)
 //@   carries C13 C15
@@ -269,6 +271,15 @@ package jd
 
 //@ contract verifPure
 //@   bounded
+//@   requires validNode(a) && validNode(b)
+//@   ensures_bounded ret0
+//@   carries C15
+
+//@ contract verifDeterministic
+//@   bounded
+//@   universe a verifOddKeyDocs()
+//@   universe b verifOddKeyDocs()
+//@   universe options [][]Option{nil, {MERGE}, {SET}}
 //@   requires validNode(a) && validNode(b)
 //@   ensures_bounded ret0
 //@   carries C15
